@@ -120,16 +120,17 @@ def run(ctx, rep):
     if not found:
         rep.lost("optional-parked", "closure of resolve_group calling is_optional")
 
-    # ---- is_optional atoms ---------------------------------------------------------------------------------------
-    io = F.hir_body("libwild::grouping::SequencedInputObject::is_optional")
+    # ---- is_optional: boolean function (truth table over MIR decision atoms; robust to reordering / let-extraction) ----
+    import decide
+    io = F.body("libwild::grouping::SequencedInputObject::is_optional")
     if io is None:
         rep.lost("is-optional-atoms", "SequencedInputObject::is_optional")
     else:
-        sk = hirq.skeleton(io["body"], lambda n: None)
-        norm = sk.replace("local:", "")
-        want_a = "(self.parsed.input.has_archive_semantics() && (!self.parsed.modifiers.whole_archive))"
-        want_b = "(self.is_dynamic() && self.parsed.modifiers.as_needed)"
-        rep.ob("is-optional-atoms", "archive-clause", want_a in norm, f"is_optional = {norm[:200]}", io["file"], io["line"])
-        rep.ob("is-optional-atoms", "as-needed-clause", want_b in norm, "shared objects are optional only with --as-needed", io["file"], io["line"])
-        rep.ob("is-optional-atoms", "disjunction", norm.count("||") == 1 and norm.count("&&") == 2, "exactly (A && !B) || (C && D)", io["file"], io["line"])
+        try:
+            paths = decide.bool_paths(P, F, io)
+            ok, why = decide.check_formula(paths, {"arch": "has_archive_semantics", "whole": "whole_archive", "dyn": "is_dynamic", "asn": "as_needed"},
+                                           lambda v: (v["arch"] and not v["whole"]) or (v["dyn"] and v["asn"]))
+            rep.ob("is-optional-atoms", "truth-table", ok, f"{len(paths)} paths; {why}", io.file, io.line)
+        except decide.NotLoopFree as e:
+            rep.ob("is-optional-atoms", "truth-table", False, f"is_optional is no longer loop-free: {e}", io.file, io.line)
     rep.assume("the transitive closure over reference graphs is input-dependent: not decided")
